@@ -65,6 +65,7 @@ Diff(cfg, e, r) ==
     \cup (IF RanEq(e.ran, r.ran) THEN {} ELSE {"ran"})
     \cup (IF r.helpof = e.helpof THEN {} ELSE {"helpof"})
     \cup (IF r.exits = <<>> THEN {} ELSE {"exits"})
+    \cup (IF r.nondet THEN {"nondet"} ELSE {})
 
 -----------------------------------------------------------------------------
 Init == l = 1 /\ d = 0
